@@ -41,6 +41,7 @@ static int nbound;
 static kobj_t *allk[4096]; static int nallk;
 uint64_t simfd_stat_cookie_reads, simfd_stat_cookie_short;
 uint64_t simfd_progress;            /* bumped on every kernel state change */
+int simfd_eagain_t[TASK_MAX];        /* per task: a read/write returned EAGAIN since the flag was cleared */
 int simfd_hard_error_t[TASK_MAX];    /* per task: last op saw EPIPE/EIO/EBADF/ENOTCONN */
 static int conn_counter;
 #define MAXCONNS 64
@@ -67,7 +68,7 @@ void simfd_reset(long rxcap)
     memset(fdt, 0, sizeof(fdt));
     gen_counter = 0;
     nbound = 0;
-    conn_counter = 0; simfd_progress = 0; memset(simfd_hard_error_t, 0, sizeof(simfd_hard_error_t));
+    conn_counter = 0; simfd_progress = 0; memset(simfd_hard_error_t, 0, sizeof(simfd_hard_error_t)); memset(simfd_eagain_t, 0, sizeof(simfd_eagain_t));
     default_rxcap = rxcap > 0 ? rxcap : 4096;
 }
 
@@ -210,7 +211,7 @@ ssize_t sim_read(int fd, void *buf, size_t n)
     if (k->type == KO_FILE && (out == FO_SHORT || out == FO_EINTR || out == FO_EAGAIN)) out = FO_FULL;
     if (out == FO_EAGAIN && !(k->flags & O_NONBLOCK)) out = FO_FULL;
     if (out == FO_EINTR) { fault_fired(FC_READ, FO_EINTR); tr_printf("read fd%d -> EINTR", fd); errno = EINTR; return -1; }
-    if (out == FO_EAGAIN) { fault_fired(FC_READ, FO_EAGAIN); tr_printf("read fd%d -> EAGAIN", fd); errno = EAGAIN; return -1; }
+    if (out == FO_EAGAIN) { fault_fired(FC_READ, FO_EAGAIN); simfd_eagain_t[task_current()] = 1; tr_printf("read fd%d -> EAGAIN", fd); errno = EAGAIN; return -1; }
     if (out == FO_EIO) { fault_fired(FC_READ, FO_EIO); simfd_hard_error_t[task_current()] = 1; tr_printf("read fd%d -> EIO", fd); errno = EIO; return -1; }
     if (k->type == KO_SRC || k->type == KO_FILE) {
         avail = k->len - k->pos;
@@ -222,6 +223,7 @@ ssize_t sim_read(int fd, void *buf, size_t n)
         }
         if (take == 0 && avail == 0 && (k->flags & O_NONBLOCK) && k->type == KO_SRC && k->shut == 0) {
             /* non-blocking source that stays open (like a socket whose peer is alive): no data = EAGAIN */
+            simfd_eagain_t[task_current()] = 1;
             tr_printf("read fd%d -> EAGAIN(drained)", fd);
             errno = EAGAIN;
             return -1;
